@@ -366,6 +366,12 @@ func sameAddr(a, b ssa.Value) bool {
 	if ok1 && ok2 && fa.Field == fb.Field {
 		return sameAddr(fa.X, fb.X) || sameValue(fa.X, fb.X)
 	}
+	// the same element of the same slice: x[i] read twice
+	ia, ok3 := a.(*ssa.IndexAddr)
+	ib, ok4 := b.(*ssa.IndexAddr)
+	if ok3 && ok4 && ia.Index == ib.Index {
+		return sameValue(ia.X, ib.X)
+	}
 	return false
 }
 
@@ -407,6 +413,33 @@ func (w *World) callKey(c ssa.CallInstruction) string {
 				}
 			}
 			return w.funcKey(f)
+		}
+	case *ssa.Extract, *ssa.Lookup:
+		// a function looked up in an effectively constant package-level table
+		if t, _ := w.tableLookup(v); t != nil {
+			set := map[string]bool{}
+			for _, e := range t {
+				f := funcOfValue(e.Val)
+				if f == nil {
+					return "dynamic"
+				}
+				if fo, ok := f.Object().(*types.Func); ok {
+					set[w.funcObjKey(fo)] = true
+				} else {
+					set[w.funcKey(f)] = true
+				}
+			}
+			var ks []string
+			for k := range set {
+				ks = append(ks, k)
+			}
+			sort.Strings(ks)
+			if len(ks) == 1 {
+				return ks[0]
+			}
+			if len(ks) > 1 {
+				return "multi:" + strings.Join(ks, "|")
+			}
 		}
 	case *ssa.Parameter:
 		// a function-typed parameter of a helper: the functions its call sites pass
@@ -945,15 +978,19 @@ func (w *World) returnedDynTypes(fn *ssa.Function, idx int, depth int, out map[s
 				val(e, seen)
 			}
 		case *ssa.Call:
-			if callee := x.Call.StaticCallee(); callee != nil && callee.Blocks != nil {
-				w.returnedDynTypes(callee, 0, depth+1, out, unknown)
+			if cs := w.dynCallees(fn, x); len(cs) > 0 {
+				for _, callee := range cs {
+					withBind(callee, x.Call.Args, func() { w.returnedDynTypes(callee, 0, depth+1, out, unknown) })
+				}
 			} else {
 				*unknown = append(*unknown, w.ipos(x)+": dynamic call")
 			}
 		case *ssa.Extract:
 			if c, ok := x.Tuple.(*ssa.Call); ok {
-				if callee := c.Call.StaticCallee(); callee != nil && callee.Blocks != nil {
-					w.returnedDynTypes(callee, x.Index, depth+1, out, unknown)
+				if cs := w.dynCallees(fn, c); len(cs) > 0 {
+					for _, callee := range cs {
+						withBind(callee, c.Call.Args, func() { w.returnedDynTypes(callee, x.Index, depth+1, out, unknown) })
+					}
 					return
 				}
 			}
@@ -1376,7 +1413,17 @@ func walkPathsP(start Loc, terminal func(ssa.Instruction) bool, edgeOK func(b *s
 				return err
 			case *ssa.Call:
 				callee := x.Call.StaticCallee()
-				if inlineOK != nil && callee != nil && callee.Blocks != nil && fr.depth < 3 && !onStack(fr, callee) && inlineOK(callee) {
+				viaValue := false
+				if callee == nil && !x.Call.IsInvoke() && inlineOK != nil && theWorld != nil {
+					// a call through a function value that this path determines (a function-typed parameter of a
+					// walked-through helper bound to a function literal or a named function by the caller)
+					if fv, _ := pc.res(x.Call.Value, fr); fv != x.Call.Value {
+						if f := funcOfValue(fv); f != nil && f.Blocks != nil && theWorld.inModule(f) && !theWorld.TestSupport[f] && len(f.FreeVars) == 0 {
+							callee, viaValue = f, true
+						}
+					}
+				}
+				if inlineOK != nil && callee != nil && callee.Blocks != nil && fr.depth < 3 && !onStack(fr, callee) && (viaValue || inlineOK(callee)) {
 					nf := &frame{fn: callee, call: x, parent: fr, retBlock: b, retIdx: i + 1, depth: fr.depth + 1}
 					if pc.children[fr] == nil {
 						pc.children[fr] = map[*ssa.Call]*frame{}
@@ -1430,6 +1477,22 @@ func phiFeasible(b *ssa.BasicBlock, succ int, path []ssa.Instruction) bool {
 		r := valueOnPath(rvI(c, len(path)-1), path)
 		if bv, isC := boolConst(r); isC {
 			return bv == truth
+		}
+	}
+	// the ok of a lookup in an effectively constant table with a key this path fixes to a constant
+	if ex, isEx := c.(*ssa.Extract); isEx && ex.Index == 1 && theWorld != nil {
+		if lk, isLk := ex.Tuple.(*ssa.Lookup); isLk && lk.CommaOk {
+			if t, _ := theWorld.tableLookup(lk); t != nil {
+				if k, isS := stringConst(valueOnPath(rvI(lk.Index, len(path)-1), path)); isS {
+					found := false
+					for _, e := range t {
+						if e.Key == k {
+							found = true
+						}
+					}
+					return found == truth
+				}
+			}
 		}
 	}
 	if x, eq, isN := nilCompare(c); isN {
@@ -1541,6 +1604,76 @@ func rres(path []ssa.Instruction, ret *ssa.Return) []ssa.Value {
 	for i, v := range ret.Results {
 		// resolved through walked-through helpers, then through the phis this path fixes
 		out[i] = valueOnPath(rvI(v, idx), path)
+	}
+	return out
+}
+
+// dynBind: parameter → argument bindings of the calls currently being descended into by an interprocedural summary
+// (a generic dispatcher that receives its table as a parameter is judged per caller).
+var dynBind = map[ssa.Value]ssa.Value{}
+
+func withBind(callee *ssa.Function, args []ssa.Value, f func()) {
+	var set []ssa.Value
+	for i, p := range callee.Params {
+		if i < len(args) {
+			if _, had := dynBind[p]; !had {
+				dynBind[p] = args[i]
+				set = append(set, p)
+			}
+		}
+	}
+	f()
+	for _, p := range set {
+		delete(dynBind, p)
+	}
+}
+
+// dynCallees: the module functions a call may run — its static callee, or, for a call through a function value, the
+// entries of the effectively constant table it was looked up in. nil if unknown.
+func (w *World) dynCallees(scope *ssa.Function, c *ssa.Call) []*ssa.Function {
+	if callee := c.Call.StaticCallee(); callee != nil {
+		if callee.Blocks != nil {
+			return []*ssa.Function{callee}
+		}
+		return nil
+	}
+	if c.Call.IsInvoke() {
+		return nil
+	}
+	v := c.Call.Value
+	if ex, ok := v.(*ssa.Extract); ok && ex.Index == 0 {
+		v = ex.Tuple
+	}
+	lk, ok := v.(*ssa.Lookup)
+	if !ok {
+		return nil
+	}
+	src := originIn(scope, lk.X)
+	if curPath != nil {
+		src = rvCur(src) // on an enumerated path the frames say which caller's table this is
+	}
+	for i := 0; i < 4; i++ {
+		b, bound := dynBind[src]
+		if !bound {
+			break
+		}
+		src = b
+	}
+	u, ok := src.(*ssa.UnOp)
+	if !ok {
+		return nil
+	}
+	g, ok := u.X.(*ssa.Global)
+	if !ok {
+		return nil
+	}
+	var out []*ssa.Function
+	for _, e := range w.constMapTable(g) {
+		f := w.unwrap(funcOfValue(e.Val))
+		if f == nil || f.Blocks == nil {
+			return nil
+		}
+		out = append(out, f)
 	}
 	return out
 }
